@@ -240,6 +240,10 @@ T("C06", "screening-min-method", "iodata/overlap.py", r"a0_min = np\.min\(shell0
 M("C12", "spinpol-other-predicate", "iodata/orbitals.py", r"                if \(self\.occs == self\.occs\.astype\(int\)\)\.all\(\):\n                    # restricted open-shell HF/KS\n                    nbeta", "                if np.isclose(self.occs, np.rint(self.occs)).all():\n                    # restricted open-shell HF/KS\n                    nbeta", "C12-R3")
 M("C12", "nbasis-pure-from-p", "iodata/basis.py", r'kind == "p" and angmom >= 2', 'kind == "p" and angmom >= 1', "C12-R6")
 T("C12", "nbasis-guard-rewritten", "iodata/basis.py", r'kind == "p" and angmom >= 2', 'kind == "p" and angmom > 1')
+M("C13", "sdf-frame-parser-back-inside-try", F + "sdf.py", r"        yield load_one\(lit\)\n", "        try:\n            yield load_one(lit)\n        except StopIteration:\n            return\n", "C13-R2")
+M("C13", "gro-probe-skips-nonblank-lines", F + "gromacs.py", r'            while line\.strip\(\) == "":', '            while not line.startswith("t="):', "C13-R2")
+T("C13", "sdf-probe-not-strip", F + "sdf.py", r'            while line\.strip\(\) == "":', '            while not line.strip():')
+M("C07", "sdf-restore-only-some-lines", F + "sdf.py", r"        for skipped_line in reversed\(skipped\):\n            lit\.back\(skipped_line\)\n", "        for skipped_line in reversed(skipped):\n            lit.back(skipped_line)\n            lit.back(skipped_line)\n", "C07-R4")
 M("C13", "xyz-zip-counted-loop", F + "xyz.py", r"    for iatom in range\(natom\):\n        words = next\(lit\)\.split\(\)", "    for iatom, line in zip(range(natom), lit):\n        words = line.split()", "C13-R8")
 M("C16", "lineiterator-class-level-stack", "iodata/utils.py", r"class LineIterator:\n", "class LineIterator:\n    stack: list = []\n", "C16-R3")
 M("C18", "main-swallows-loaderror", "iodata/__main__.py", r"    convert\(args\.input, args\.output, args\.many, args\.infmt, args\.outfmt, args\.allow_changes\)\n", "    try:\n        convert(args.input, args.output, args.many, args.infmt, args.outfmt, args.allow_changes)\n    except Exception as exc:\n        print(exc)\n", "C18-R3")
